@@ -918,21 +918,22 @@ class Frame(object):
         drift_rate = unit_utils.get_value(drift_rate, u.Hz / u.s)
         width = unit_utils.get_value(width, u.Hz)
 
-        start_index = self.get_index(f_start)
-
-        # Calculate the bounding box, to optimize signal insertion calculation
+        # Calculate the bounding box, to optimize signal insertion calculation.
+        # The signal center moves linearly from its starting position over the 
+        # frame (one extra time sample when smearing); keep a margin of twice the
+        # width on either side, rounded outwards
         px_width_offset = 2 * width / self.df
-        if drift_rate < 0:
-            px_width_offset = -px_width_offset
+        px_start = (f_start - self.fmin) / self.df
         px_drift_offset = self.dt * (self.tchans - 1) * drift_rate / self.df
         if doppler_smearing:
             px_drift_offset += drift_rate * self.dt / self.df
+        px_stop = px_start + px_drift_offset
 
-        bounding_start_index = start_index + int(-px_width_offset)
-        bounding_stop_index = start_index + int(px_drift_offset + px_width_offset)
+        bounding_start_index = int(np.floor(min(px_start, px_stop) - px_width_offset))
+        bounding_stop_index = int(np.ceil(max(px_start, px_stop) + px_width_offset)) + 1
 
-        bounding_min_index = max(min(bounding_start_index, bounding_stop_index), 0)
-        bounding_max_index = min(max(bounding_start_index, bounding_stop_index), self.fchans)
+        bounding_min_index = min(max(bounding_start_index, 0), self.fchans)
+        bounding_max_index = min(max(bounding_stop_index, 0), self.fchans)
 
         # Select common frequency profile types
         if f_profile_type == 'gaussian':
